@@ -1307,6 +1307,7 @@ package crypto
 //@ ensures [lock-kept] unchanged(s.lock.mode) && unchanged(s.lock.acq)
 //@ ensures [hasher-kept] hasherOK(s.hasher)
 //@ loop 1 invariant len(signers) == nvisited() && len(shares) == 48 * nvisited() && nvisited() <= s.threshold + 1
+//@ loop 1 invariant forall(k, 0, len(signers), 0 <= signers[k] && signers[k] <= 255)
 
 //@ func NewBLSThresholdSignatureInspector mode int props C18 C06 C09
 //@ requires noTypedNilKeys(sharePublicKeys) && (typeis(groupPublicKey, *pubKeyBLSBLS12381) ==> unbox(groupPublicKey, *pubKeyBLSBLS12381) != nil)
@@ -1328,9 +1329,23 @@ package crypto
 //@ ensures threshold >= 1 ==> result1 == nil && result0 == (sharesNumber > threshold)
 
 // E1_lagrange_interpolate_at_zero_write reads degree+1 serialized signatures of 48 bytes each and degree+1 signer indices
-//@ cfunc E1_lagrange_interpolate_at_zero_write nobody props C06 C09
-//@ requires degree >= 0 && valid(dest, 48) && valid(shares, 48*(degree+1)) && valid(indices, degree+1)
+//@ cfunc E1_lagrange_interpolate_at_zero_write props C06 C09
+//@ requires 0 <= degree && degree <= 254 && valid(dest, 48) && valid(shares, 48*(degree+1)) && valid(indices, degree+1)
+//@ requires [indices-are-bytes] forall(q, 0, degree+1, 0 <= indices[q] && indices[q] <= 255)
 //@ assigns dest[0:48]
+//@ loop 1 invariant 0 <= i && i <= degree + 1
+//@ loop 1 assigns E1_shares[0:degree+1], i, read_ret
+
+//@ cfunc E1_lagrange_interpolate_at_zero props C06 C09 params out shares indices degree
+//@ requires out != nil && 0 <= degree && degree <= 254 && valid(shares, degree+1) && valid(indices, degree+1)
+//@ requires [indices-are-bytes] forall(q, 0, degree+1, 0 <= indices[q] && indices[q] <= 255)
+//@ assigns *out
+//@ loop 1 invariant 0 <= i && i <= degree + 1
+//@ loop 1 assigns lagrange_coeffs[0:degree+1], i
+
+//@ cfunc E1_multi_scalar nobody params res p expos len
+//@ requires res != nil && len >= 0 && valid(p, len) && valid(expos, len)
+//@ assigns *res
 
 //@ func NewBLSThresholdSignatureParticipant mode int props C18 C06 C09
 //@ requires noTypedNilKeys(sharePublicKeys) && (typeis(groupPublicKey, *pubKeyBLSBLS12381) ==> unbox(groupPublicKey, *pubKeyBLSBLS12381) != nil)
@@ -1354,6 +1369,7 @@ package crypto
 //@ loop 1 invariant forall(k, 0, i, len(shares[k]) == 48 && 0 <= signers[k] && signers[k] < size)
 //@ loop 1 invariant forall(v, 0, 256, has(m, v) == exists(k, 0, i, signers[k] == v))
 //@ loop 1 invariant forall(k, 0, i, forall(j, 0, k, signers[j] != signers[k]))
+//@ loop 1 invariant forall(k, 0, i, 0 <= indexSigners[k] && indexSigners[k] <= 255)
 
 //@ func BLSThresholdKeyGen mode int props C06 C12 C09
 //@ assigns nothing
